@@ -13,7 +13,7 @@ func vC19Table(env *Zlisp, m int, maxLen int, maxCounter int) (names []string, n
 	env.symtable = make(map[string]int)
 	env.revsymtable = make(map[int]string)
 	for i := 0; i < m; i++ {
-		n := 1 + vChoice("len", maxLen)
+		n := vChoice("len", maxLen+1) // the empty name is a legal symbol name
 		name := vString("name", n)
 		num := vInt("num")
 		vAssume(num >= 1 && num < 1<<30)
@@ -54,7 +54,7 @@ func vh_C19_make() {
 	env := NewZlispSandbox()
 	m := vChoice("m", mMax+1)
 	names, nums := vC19Table(env, m, maxLen, maxCounter)
-	n := 1 + vChoice("xlen", maxLen)
+	n := vChoice("xlen", maxLen+1)
 	x := vString("x", n)
 	sym := env.MakeSymbol(x)
 	vAssert(sym.name == x, "make-name")
